@@ -51,8 +51,8 @@ CHECKS["C19"] = dict(
     ],
     tests=[
         dict(name="TestC19", env={"C19_AVOID_DEFAULT": _C19_AVOID},
-             quick=dict(cases=2500, shards=8, timeout=600), thorough=dict(cases=25000, shards=16, timeout=3000)),
+             quick=dict(cases=5000, shards=8, timeout=900), thorough=dict(cases=25000, shards=16, timeout=3000)),
         dict(name="TestC19NoCrash",
-             quick=dict(cases=20000, shards=2, timeout=600), thorough=dict(cases=150000, shards=16, timeout=3000)),
+             quick=dict(cases=30000, shards=2, timeout=900), thorough=dict(cases=150000, shards=16, timeout=3000)),
     ],
 )
